@@ -62,6 +62,9 @@ import E3nnVerif.Generated.LIN.X020
 import E3nnVerif.Generated.LIN.X021
 import E3nnVerif.Generated.LIN.X022
 import E3nnVerif.Generated.LIN.X023
+import E3nnVerif.Generated.LIN.X024
+import E3nnVerif.Generated.LIN.X025
+import E3nnVerif.Generated.LIN.X026
 import E3nnVerif.Generated.LIN.R000
 import E3nnVerif.Generated.LIN.R001
 import E3nnVerif.Generated.LIN.R002
@@ -136,6 +139,9 @@ def registry : List (String × Cfg × List Node) := [
   ("X021", X021.cfg, X021.prog),
   ("X022", X022.cfg, X022.prog),
   ("X023", X023.cfg, X023.prog),
+  ("X024", X024.cfg, X024.prog),
+  ("X025", X025.cfg, X025.prog),
+  ("X026", X026.cfg, X026.prog),
   ("R000", R000.cfg, R000.prog),
   ("R001", R001.cfg, R001.prog),
   ("R002", R002.cfg, R002.prog),
